@@ -1,17 +1,26 @@
 //! Harness binary `h_sw_b <PROP> --seed S --tier T [--count N] [--replay F]`.
 //! One module per property (`cNN.rs`, `pub fn run(args: &hcore::Args, out: &mut hcore::Out)`).
+mod c08;
+mod c09;
+mod c10;
+mod c11;
+mod util;
+
+hcore::install_clock!();
 
 fn main() {
     let args = hcore::Args::parse();
     hcore::quiet_panics();
     let mut out = hcore::Out::new();
     match args.prop.as_str() {
+        "C08" => c08::run(&args, &mut out),
+        "C09" => c09::run(&args, &mut out),
+        "C10" => c10::run(&args, &mut out),
+        "C11" => c11::run(&args, &mut out),
         p => {
-            let _ = &mut out;
             eprintln!("h_sw_b: unknown property {p}");
             std::process::exit(2);
         }
     }
-    #[allow(unreachable_code)]
     out.flush();
 }
